@@ -125,24 +125,38 @@ def run(index, rep, tier):
         if len(rs) != 1:
             raise AnalysisError("R07.3: to_outgroup_position shape not recognised")
         # a child-list position looked up before the reseed is stale afterwards (reseed_at / the basal collapse splice children in)
+        # ... unless this re-seeding cannot splice anything: both the unifurcation suppression and the basal collapse switched off by literal False
+        _su, _cb = get_kwarg(rs[0], "suppress_unifurcations"), get_kwarg(rs[0], "collapse_unrooted_basal_bifurcation")
+        reseed_splices = not (_su is not None and _cb is not None and const_value(_su, None) is False and const_value(_cb, None) is False)
         for n in walk_no_nested(fi.node):
+            if not reseed_splices:
+                break
             if isinstance(n, ast.Assign) and isinstance(n.targets[0], ast.Name) and isinstance(n.value, ast.Call) and call_name(n.value) == "index" and n.lineno < rs[0].lineno:
                 uses = [u for u in walk_no_nested(fi.node) if isinstance(u, ast.Name) and u.id == n.targets[0].id and isinstance(u.ctx, ast.Load) and u.lineno > rs[0].lineno]
                 rep.check(not uses, "R07.3", fi.qualname, "child position looked up before reseed_at and used after it", fn_where(fi, uses[0] if uses else n), "no stale child position",
                           "to_outgroup_position looks up a child-list position (`%s`) before reseed_at and uses it afterwards: re-seeding (and the basal collapse it may perform) splices children into that list, so the position can name a different child and the outgroup does not end up first" % norm_stmt(n))
-        if not ins:
+        if not ins and not reseed_splices and [c for c in calls_in(fi.node) if call_name(c) == "insert" and c.args and const_value(c.args[0], -1) == 0 and c.lineno > rs[0].lineno and "_child_nodes" in norm(c.func.value)]:
+            # the re-seeding cannot splice children in or out (both mechanisms off), so a position taken before it is still right and moving the outgroup to the front in place is the same operation
+            rep.ob("R07.3", fn_where(fi), "to_outgroup_position moves the outgroup to index 0 of its parent's child list in place; the re-seeding before it cannot change positions", True)
+            ins = None
+        if ins is None:
+            pass
+        elif not ins:
             front = [c for c in calls_in(fi.node) if call_name(c) == "insert" and c.args and const_value(c.args[0], -1) == 0 and c.lineno > rs[0].lineno]
             direct = [c for c in front if len(c.args) > 1 and norm(c.args[1]) == og]
             rep.check(bool(direct), "R07.3", fi.qualname, "outgroup not re-inserted through insert_child(0, ...)", fn_where(fi, front[0] if front else rs[0]), "the outgroup node itself is inserted at index 0",
                       "to_outgroup_position no longer finishes with <reseed target>.insert_child(0, <outgroup>): after re-seeding, the outgroup's position among its parent's children is not what it was before, so only removing and re-inserting the node itself at index 0 guarantees that the outgroup is the first child of the root")
             raise AnalysisError("R07.3: to_outgroup_position does not use insert_child; the remaining R07.3 obligations were not evaluated")
         target = norm(rs[0].args[0]) if rs[0].args else norm(get_kwarg(rs[0], "new_seed_node"))
-        last = ins[-1]
-        idx = last.args[0] if last.args else get_kwarg(last, "index")
-        node = last.args[1] if len(last.args) > 1 else get_kwarg(last, "node")
-        ok = norm(last.func.value) == target and const_value(idx, -1) == 0 and node is not None and norm(node) == og
-        rep.check(ok, "R07.3", fi.qualname, norm(last), fn_where(fi, last), "outgroup re-inserted as %s.insert_child(0, %s)" % (target, og),
-                  "to_outgroup_position finishes with `%s`: the outgroup must be inserted at index 0 of the node the tree was reseeded at (`%s`)" % (norm(last), target))
+        if ins is None:
+            ins = []
+        last = ins[-1] if ins else None
+        if last is not None:
+            idx = last.args[0] if last.args else get_kwarg(last, "index")
+            node = last.args[1] if len(last.args) > 1 else get_kwarg(last, "node")
+            ok = norm(last.func.value) == target and const_value(idx, -1) == 0 and node is not None and norm(node) == og
+            rep.check(ok, "R07.3", fi.qualname, norm(last), fn_where(fi, last), "outgroup re-inserted as %s.insert_child(0, %s)" % (target, og),
+                      "to_outgroup_position finishes with `%s`: the outgroup must be inserted at index 0 of the node the tree was reseeded at (`%s`)" % (norm(last), target))
         pdef = [n for n in walk_no_nested(fi.node) if isinstance(n, ast.Assign) and norm(n.targets[0]) == target]
         ok = bool(pdef) and norm(pdef[0].value) in (og + "._parent_node", og + ".parent_node")
         rep.check(ok, "R07.3", fi.qualname, "reseed target = outgroup's parent", fn_where(fi), "the tree is reseeded at the outgroup's parent",
